@@ -642,3 +642,99 @@ func init() {
 			return out
 		}})
 }
+
+// NAMEFIELD — an accessor named after one component does not answer from its sibling.
+//
+// `func (p Parameters) DepthCoeffsToSlots() int { return p.SlotsToCoeffsParameters.Depth(true) }` and its twin
+// DepthSlotsToCoeffs answer from each other's component: every caller that budgets levels per step gets the other
+// step's depth (the sum is right, which is why nothing notices).
+//
+// Rule: take the fields of a struct whose names end in Parameters/Params/Literal; their stems (CoeffsToSlots, Mod1, …)
+// name components. A method of the struct whose name contains the stem of field Fi, that reads some stemmed field, reads
+// Fi — unless its name also contains the stem of the field it reads.
+func scanNameField(c *core.Ctx) []ob {
+	var out []ob
+	n := 0
+	stemOf := func(f string) string {
+		for _, suf := range []string{"ParametersLiteral", "Parameters", "Params", "Literal"} {
+			if strings.HasSuffix(f, suf) && len(f)-len(suf) >= 4 {
+				return strings.TrimSuffix(f, suf)
+			}
+		}
+		return ""
+	}
+	c.FuncDecls(func(pk *packages.Package, file *ast.File, fd *ast.FuncDecl) {
+		if fd.Body == nil || fd.Recv == nil || fileIsTestSupport(c.Program, fd.Pos()) || inExamples(pk) {
+			return
+		}
+		info := pk.TypesInfo
+		named, _ := core.RecvNamed(info, fd)
+		recv := recvObj(info, fd)
+		if named == nil || recv == nil {
+			return
+		}
+		st, _ := named.Underlying().(*types.Struct)
+		if st == nil {
+			return
+		}
+		stems := map[string]string{} // field -> stem
+		for i := 0; i < st.NumFields(); i++ {
+			if s := stemOf(st.Field(i).Name()); s != "" {
+				stems[st.Field(i).Name()] = s
+			}
+		}
+		if len(stems) < 2 {
+			return
+		}
+		// the component the method is named after
+		var own []string
+		for f, s := range stems {
+			if strings.Contains(fd.Name.Name, s) {
+				own = append(own, f)
+			}
+		}
+		if len(own) != 1 {
+			return
+		}
+		used := map[string]token.Pos{}
+		ast.Inspect(fd.Body, func(x ast.Node) bool {
+			if sel, ok := x.(*ast.SelectorExpr); ok {
+				if id, ok := unparen(sel.X).(*ast.Ident); ok && info.Uses[id] == types.Object(recv) {
+					if _, stemmed := stems[sel.Sel.Name]; stemmed {
+						if _, seen := used[sel.Sel.Name]; !seen {
+							used[sel.Sel.Name] = sel.Pos()
+						}
+					}
+				}
+			}
+			return true
+		})
+		if len(used) == 0 {
+			return
+		}
+		n++
+		fkey := core.FuncKey(pk, fd)
+		key := "NAMEFIELD:" + fkey
+		props := propsForKey(fkey)
+		if _, ok := used[own[0]]; ok {
+			out = append(out, withProps(okOb("NAMEFIELD", key, c.Rel(fd.Pos()), fmt.Sprintf("named after %s and reads it", own[0]), true), props...))
+			return
+		}
+		other := sortedKeys(used)[0]
+		out = append(out, withProps(violOb("NAMEFIELD", key, c.Rel(used[other]), fmt.Sprintf("%s is named after the component %s but answers from %s, which another accessor is named after: callers get the sibling component's value", fkey, own[0], other)), props...))
+	})
+	c.Stats["namefield_methods"] = n
+	return out
+}
+
+func init() {
+	core.Register(&core.Rule{Name: "NAMEFIELD", Wide: true, Props: []string{"C18", "C19"},
+		Doc: "a method of a struct whose name contains the stem of one of its …Parameters/…Literal fields (CoeffsToSlots, SlotsToCoeffs, Mod1) and that reads such fields reads the one it is named after",
+		Run: func(c *core.Ctx) []ob {
+			out := scanNameField(c)
+			for _, o := range control(c, "NAMEFIELD", scanNameField, "(fxStages).DepthEncode") {
+				out = append(out, withProps(o, "C18", "C19"))
+			}
+			return out
+		}})
+}
